@@ -1,34 +1,33 @@
 """Per-property build units and runs for /verif/check.
 
-unit:  name, dir (package directory relative to /repo), src (directory under
-       /verif/harness whose *.go files are overlaid into the package as
-       zz_verif_<ID>_<file>_test.go), runs.
+Each property has /verif/config/<ID>.py defining CHECK = dict(...):
+
+  level, level_text, level_note, technique, assumptions, units
+
+unit:  name, dir (package directory relative to /repo), src (directory, or list
+       of directories, under /verif/harness whose *.go files are overlaid into
+       the package as zz_verif_<ID>_<file>_test.go), optional testdata=True
+       (copy the package's testdata/ next to the test binary's work dir), runs.
 run:   name, run (-test.run regex), quick/thorough (rapid checks per run; 0 =
        not a rapid test), shards_quick/shards_thorough (processes with distinct
-       seeds; checks are divided between them), race, timeout, solo.
+       seeds; checks are divided between them), race (build and run with
+       -race), timeout / timeout_quick / timeout_thorough (seconds), solo (run
+       alone after the parallel batch: timing-sensitive), tier_only, env,
+       fuzz + fuzztime (thorough only: native go fuzzing of that target).
 """
 
-D = "internal/dnsserver/"
+import importlib.util
+import glob
+import os
+
+_here = os.path.dirname(os.path.abspath(__file__))
 
 # commits in /repo that add build-tag-guarded hooks (none: the overlay gives in-package access)
 HOOK_COMMITS = []
 
-CHECKS = {
-    "C04": dict(
-        level="exploration",
-        level_text="Generated-input search: a bounded-exhaustive (shape, ttl, age) grid and rapid-drawn ages through fromCacheItem, and rapid stateful histories (queries interleaved with clock advances) compared with a fresh-instance twin, a TTL inequality and an upstream-call counter. Held on N cases is evidence, not proof; exhaustive only for the listed ttl values on a 100 ms grid.",
-        level_note="Trusts miekg/dns, gcache/agdcache expiry, and that rewinding stored timestamps is equivalent to the passage of time; upstream is assumed EDNS-conforming (echoes OPT and DO).",
-        technique="property-based testing (rapid): bounded-exhaustive age grid + stateful histories vs fresh-twin differential and TTL inequality",
-        assumptions=[
-            "miekg/dns codec, gcache expiry and agdcache LRU are trusted",
-            "time is owned by rewinding the stored items' timestamps and by a harness-clocked store behind the middleware's cache field; the wall clock only adds microseconds, which the one-sided TTL bound tolerates",
-        ],
-        units=[
-            dict(name="cache", dir=D + "cache", src="C04/cache", runs=[
-                dict(name="agegrid", run="^TestVerifC04AgeGrid$", quick=0, thorough=0),
-                dict(name="agerapid", run="^TestVerifC04AgeRapid$", quick=20000, thorough=400000, shards_thorough=4),
-                dict(name="history", run="^TestVerifC04History$", quick=3000, thorough=120000, shards_thorough=8),
-            ]),
-        ],
-    ),
-}
+CHECKS = {}
+for _f in sorted(glob.glob(os.path.join(_here, "config", "C*.py"))):
+    _spec = importlib.util.spec_from_file_location("vcfg_" + os.path.basename(_f)[:-3], _f)
+    _m = importlib.util.module_from_spec(_spec)
+    _spec.loader.exec_module(_m)
+    CHECKS[os.path.basename(_f)[:-3]] = _m.CHECK
